@@ -370,7 +370,15 @@ func (ex *exec) inline(st *State, fi *FuncInfo, recv Value, args []Value, call *
 		merged = live
 	}
 	if len(merged) != 1 {
-		ex.fail(call.Pos(), "cannot merge the %d return paths of inlined %s", len(merged), fi.Key)
+		// the return paths cannot be merged into one state (e.g. they return slices of different objects): ask the
+		// enclosing simple statement to be re-executed once per path (execStmt), choosing path k each time
+		if k, ok := ex.forcedRet[call]; ok && k < len(merged) {
+			merged = merged[k : k+1]
+		} else if ex.splitOK > 0 {
+			panic(splitRequest{call: call, n: len(merged)})
+		} else {
+			ex.fail(call.Pos(), "cannot merge the %d return paths of inlined %s", len(merged), fi.Key)
+		}
 	}
 	m := merged[0]
 	// copy merged state back into st (st is shared by pointer with the caller)
